@@ -638,10 +638,13 @@ func (dp *DataProcessor) applyHavingWithCaseExpression(results []map[string]any)
 func (dp *DataProcessor) applyHavingWithCondition(results []map[string]any) []map[string]any {
 	// HAVING condition doesn't contain CASE expression, use original expr-lang processing
 	// Preprocess LIKE syntax in HAVING condition, convert to expr-lang understandable form
-	processedHaving := dp.stream.config.Having
+	// Back-quoted column names and aliases are plain references to the result
+	// row; expr-lang would read `k` as a raw string literal, so the quotes are
+	// removed first, as the WHERE and the CASE paths do.
+	processedHaving := stripIdentifierBackquotes(dp.stream.config.Having)
 	bridge := functions.GetExprBridge()
-	if bridge.ContainsLikeOperator(dp.stream.config.Having) {
-		if processed, err := bridge.PreprocessLikeExpression(dp.stream.config.Having); err == nil {
+	if bridge.ContainsLikeOperator(processedHaving) {
+		if processed, err := bridge.PreprocessLikeExpression(processedHaving); err == nil {
 			processedHaving = processed
 		}
 	}
@@ -670,6 +673,42 @@ func (dp *DataProcessor) applyHavingWithCondition(results []map[string]any) []ma
 	}
 
 	return filteredResults
+}
+
+// stripIdentifierBackquotes removes the back quotes around identifiers (`k` -> k)
+// and leaves back quotes inside string literals alone.
+func stripIdentifierBackquotes(text string) string {
+	if !strings.Contains(text, "`") {
+		return text
+	}
+	var sb strings.Builder
+	sb.Grow(len(text))
+	for i := 0; i < len(text); {
+		c := text[i]
+		if c == '\'' || c == '"' {
+			// Copy the string literal unchanged
+			j := i + 1
+			for j < len(text) && text[j] != c {
+				j++
+			}
+			if j < len(text) {
+				j++
+			}
+			sb.WriteString(text[i:j])
+			i = j
+			continue
+		}
+		if c == '`' {
+			if end := strings.IndexByte(text[i+1:], '`'); end > 0 {
+				sb.WriteString(text[i+1 : i+1+end])
+				i += end + 2
+				continue
+			}
+		}
+		sb.WriteByte(c)
+		i++
+	}
+	return sb.String()
 }
 
 // processDirectData directly processes non-window data
